@@ -17,6 +17,7 @@ import re
 
 from harness import core
 from harness import alias_run
+from harness import c11_pairs
 
 F8N, F4N, I4N, F8D, F4D, I8N = "f8n", "f4n", "i4n", "f8d", "f4d", "i8n"
 F4B, F4BD = "f4nBig", "f4dBig"      # 40 x 48 rasters: large enough for threads to actually interleave
@@ -241,8 +242,9 @@ def nontrivial(h):
     return any(len(v) >= 2 for v in seen.values())
 
 
-def handle(ctx, results, cases, verdicts, kind):
+def handle(ctx, results, cases, verdicts, kinds):
     for i, (r, case) in enumerate(zip(results, cases)):
+        kind = kinds if isinstance(kinds, str) else kinds[i]
         cl = verdicts.get(i, "missing")
         extra = ctx.judge_extra.get(i) or ""
         h = tuple(e["c"] for e in r["events"])
@@ -253,8 +255,11 @@ def handle(ctx, results, cases, verdicts, kind):
             f = cid.split("|")[0]
             idx = int(extra.split("@")[1]) - 1 if "@" in extra else 0
             ev = r["events"][idx] if idx < len(r["events"]) else {}
-            ctx.violation("%s:%s" % (f, cl), cl,
-                          {"history": list(h), "threads": r["threads"], "at": extra, "observed": case["events"][idx] if idx < len(case["events"]) else None,
+            key = "%s:%s" % (f, cl)
+            if kind.startswith("threads") and cl == "result_differs_from_fresh_interpreter":
+                key = "%s:thread-count-changes-result" % f
+            ctx.violation(key, cl,
+                          {"history": list(h), "threads": r["threads"], "kind": kind, "at": extra, "observed": case["events"][idx] if idx < len(case["events"]) else None,
                            "defaults_changed_in": ev.get("defaults_changed_in"), "err": ev.get("err")},
                           "%s threads=%d %s after %s" % (kind, r["threads"], extra, list(h[:idx])[-3:]))
         elif extra.startswith("drift"):
@@ -279,7 +284,15 @@ def run(ctx):
         ctx.note("VERIF_FOCUS=%s: partial run, not a registered configuration" % sorted(focus))
     else:
         model_part(ctx)
-    replay_part(ctx, rng, focus)
+    # quick: the one-parameter alphabet (every function, every parameter) + thread counts; thorough: additionally the
+    # colliding alphabet with strict one-call-per-interpreter references, long simulated histories and all ordered pairs
+    pair_part(ctx, alias_run.repo_fingerprint(), focus)
+    if ctx.tier == "thorough" or focus:
+        replay_part(ctx, rng, focus)
+    keys = {}
+    for k, _cl, _p in ctx.violations:
+        keys[k] = keys.get(k, 0) + 1
+    ctx.extra["violation_keys"] = keys
 
 
 def model_part(ctx):
@@ -288,8 +301,9 @@ def model_part(ctx):
     props = ["ResultDependsOnlyOnArgs", "ResultIsFresh", "HiddenStateFrozen", "JitOnlyGrows"]
     ctx.model_check("History", dict(spec="Spec", invariants=inv, properties=props,
                                     constants=abstract_constants(maxlen=ctx.pick(3, 4))), "all_histories", coverage=True)
-    ctx.model_check("History", dict(spec="Spec", invariants=inv, properties=props,
-                                    constants=abstract_constants(maxlen=3, threads=16)), "all_histories_16_threads")
+    if ctx.tier == "thorough":
+        ctx.model_check("History", dict(spec="Spec", invariants=inv, properties=props,
+                                        constants=abstract_constants(maxlen=3, threads=16)), "all_histories_16_threads")
     for mut, prop, thr in (("stale_closure", "ResultIsFresh", 1), ("mutable_default", "HiddenStateFrozen", 1),
                            ("mutable_default", "ResultIsFresh", 1), ("table_pop", "HiddenStateFrozen", 1),
                            ("table_pop", "ResultIsFresh", 1), ("rng_no_reseed", "ResultIsFresh", 1),
@@ -312,6 +326,79 @@ def model_part(ctx):
         raise core.MachineryError("race twin visible with one thread")
     ctx.exhaustive = True
 
+
+
+def pair_part(ctx, fp0, focus=None):
+    """the one-parameter alphabet (c11_pairs): A,B,A / B,A,B schedules in two warm processes per function group, the float
+    reductions under NUMBA_NUM_THREADS in {1, 2, 4, 16} (environment and numba.set_num_threads), and a few TLC-simulated
+    histories over the same alphabet; all in one pool, all judged by History_Trace."""
+    quick = ctx.tier != "thorough"
+    ents = c11_pairs.entries(ctx.tier)
+    thr = c11_pairs.thread_entries()
+    if focus:
+        ents = [e for e in ents if e["f"] in focus or e["f"] in ("slope", "bump")]
+        thr = [e for e in thr if e["f"] in focus or e["f"] == "slope"]
+    by_c = {e["c"]: e for e in ents + thr}
+    by_key = {(e["f"], e["p"], e["sig"]): e for e in ents}
+    procs, refproc = c11_pairs.schedules(ents, nproc=ctx.pick(11, 14))
+    ref = {c: "pairs_%02d" % i for c, i in refproc.items()}
+    ref.update({e["c"]: "threads_env_1" for e in thr})
+    jobs, kinds, envs = [], [], []
+
+    def add(kind, threads, calls, numba_threads=None):
+        jobs.append({"hid": len(jobs), "threads": threads, "calls": calls})
+        kinds.append(kind)
+        envs.append({"NUMBA_NUM_THREADS": str(numba_threads or threads)})
+    for i, calls in enumerate(procs):
+        add("pairs_%02d" % i, 1, calls)
+    env_threads = (1, 2, 4, 16)
+    for n in env_threads:
+        add("threads_env_%d" % n, n, thr)
+    add("threads_set_num_threads", 16, [dict(e, set_threads=n) for n in (1, 2, 4, 16) for e in thr], numba_threads=16)
+    # TLC-simulated histories over the one-parameter alphabet (cross-function interleavings)
+    fs = {e["f"] for e in ents}
+    cst = dict(Funcs=fs - GENS - UNSEEDED, Gens=fs & GENS, Unseeded=fs & UNSEEDED, Params={e["p"] for e in ents} | {"p0"},
+               Sigs={e["sig"] for e in ents}, Alphabet=tla_alphabet(ents), Threads=1, MAXLEN=ctx.pick(10, 16), MUT="none")
+    files = ctx.simulate("History", dict(spec="Spec", constants=cst), "pair_alphabet_histories", num=ctx.pick(3, 40),
+                         depth=ctx.pick(10, 16) + 1)
+    for fp in files:
+        h = parse_hist_state(open(fp).read())
+        if h and all(x in by_key for x in h):
+            add("simulated", 1, [by_key[x] for x in h])
+    res = alias_run.run_pool("hist_worker", [[j] for j in jobs], envs=envs)
+    library_unchanged(ctx, fp0)
+    results = []
+    for j, r in zip(jobs, res):
+        r = r[0]
+        if "machinery_error" in r:
+            raise core.MachineryError("hist_worker failed on %s:\n%s" % (kinds[j["hid"]], r["machinery_error"]))
+        results.append(r)
+    # references: base = first call of its function in P1; a variation = its first occurrence in P2 (it ran before any call
+    # that differs from it in one parameter only); thread calls = the 1-thread process
+    cache = {}
+
+    def dig(e):
+        return ("raised:" + e["err"].split(":")[0]) if e["raised"] else e["digest"]
+    for kind, r in zip(kinds, results):
+        for e in r["events"]:
+            c = e["c"]
+            if kind == ref[c] and c not in cache:
+                cache[c] = dig(e)
+    ctx.extra["process_cpu_s"] = {k: r.get("cpu_s") for k, r in zip(kinds, results)}
+    raised = sorted({e["c"] + " " + e["err"][:60] for r in results for e in r["events"] if e["raised"]})
+    ctx.extra["calls_that_raise"] = raised       # the same exception in every process: consistent, but weak coverage
+    missing = [c for c in by_c if c not in cache]
+    if missing:
+        raise core.MachineryError("no reference for %s" % missing[:5])
+    cases = [to_case(r, cache, by_c) for r in results]
+    v = ctx.judge("History_Trace", cases, name="one_parameter_pairs", stateful=True, workers=2, parallel=2)
+    handle(ctx, results, cases, v, kinds)
+    ctx.extra["one_parameter_alphabet"] = {"functions": len(fs), "calls": len(ents), "pairs": len(ents) - len(fs),
+                                           "processes": len(jobs), "calls_replayed": sum(len(j["calls"]) for j in jobs),
+                                           "thread_counts_env": list(env_threads), "thread_counts_set_num_threads": [1, 2, 4, 16],
+                                           "simulated_histories": sum(1 for k in kinds if k == "simulated")}
+    ctx.sample({"pairs_00": [c["c"] for c in procs[0]][:12]})
+    return cases
 
 
 def library_unchanged(ctx, fp0):
